@@ -49,6 +49,24 @@ def proveSingle (o : GroupOps G) (H : List ByteArray → Int) (m : OvfMode)
     { proofs := [{ eq := eq, ne := nes, hasNonRevoc := false, nrTaus := .ok [] }],
       cHash := c, cList := cl.map o.enc }
 
+/-- `proveSingle` for a credential that also carries a non-revocation part: the pairing side
+    contributes its (already encoded) tau-list and c-list IN FRONT of the primary ones, as
+    `ProofBuilder::add_sub_proof_request` pushes them, and `m2Tilde` is the mask both parts share -/
+def proveSingleWith (o : GroupOps G) (H : List ByteArray → Int) (m : OvfMode)
+    (fourSq : Int → Outcome (List Int)) (common : List (String × Int)) (pk : PubKey G)
+    (sig : Signature G) (unrevealed revealed : List String) (preds : List (Pred × NeTape))
+    (vals : Values) (m2Tilde : Int) (tp : EqTape) (nonce : ByteArray)
+    (nrTaus nrCs : List ByteArray) : Outcome (Proof G) :=
+  (initEqProof o common pk sig unrevealed m2Tilde tp).bind fun eqInit =>
+  (initPreds o m fourSq pk eqInit.mTilde vals preds).bind fun nis =>
+  let taus := proverTaus eqInit nis
+  let cl := proverCList eqInit nis
+  let c := H (nrTaus ++ taus.map o.enc ++ (nrCs ++ cl.map o.enc) ++ [nonce])
+  (finalizeEqProof eqInit c unrevealed revealed vals).bind fun eq =>
+  (finalizePreds c eq nis).map fun nes =>
+    { proofs := [{ eq := eq, ne := nes, hasNonRevoc := !nrTaus.isEmpty, nrTaus := .ok [] }],
+      cHash := c, cList := nrCs ++ cl.map o.enc }
+
 /-! ## several credentials, one challenge -/
 
 /-- what the prover holds for one sub-proof request (`ProofBuilder::add_sub_proof_request`) -/
